@@ -36,11 +36,11 @@ class DeterministicShortestPathProblem(MarkovDecisionProcess):
             def initial_state(self):
                 initial_state = mdp.initial_state_dist().support
                 assert len(initial_state) == 1, "MDP has non-deterministic initial state"
-                return initial_state[0]
+                return next(iter(initial_state))
             def next_state(self, s, a):
                 next_state = mdp.next_state_dist(s, a).support
                 assert len(next_state) == 1, "MDP has non-deterministic transition function"
-                return next_state[0]
+                return next(iter(next_state))
         DeterministicShortestPathProblemFromMDP.actions = staticmethod(mdp.actions)
         DeterministicShortestPathProblemFromMDP.reward = staticmethod(mdp.reward)
         DeterministicShortestPathProblemFromMDP.is_absorbing = staticmethod(mdp.is_absorbing)
